@@ -98,7 +98,8 @@ inline std::string slug(const std::string& w)
   return r.empty() ? "none" : r;
 }
 
-inline long nlines(const std::string& s) { long n = 1; for (char c : s) if (c == '\n') n++; return n; }
+// line breaks as expat counts them: LF, CR LF, and a lone CR
+inline long nlines(const std::string& s) { long n = 1; for (size_t i = 0; i < s.size(); i++) if (s[i] == '\n' || (s[i] == '\r' && (i + 1 >= s.size() || s[i + 1] != '\n'))) n++; return n; }
 
 inline Verdict execute(const std::string& target, const Plan& plan, const std::string& B, const std::vector<size_t>& cuts, bool err_end, bool finalsep,
                        bool valid_claim, EventLog& log, Stats& st)
